@@ -426,9 +426,24 @@ pub fn stub_grow(
         }
     };
     kani::assert(new.size() <= MAX_BLOCK, "VERIF-LIMIT allocation above the largest size class");
-    kani::assert(class(new.size()) == class(old.size()), "VERIF-LIMIT buffer growth beyond its size class");
     kani::assert(!zeroed, "VERIF-LIMIT zeroed growth");
-    Ok(core::ptr::NonNull::slice_from_raw_parts(ptr, new.size()))
+    let (oc, nc) = (class(old.size()), class(new.size()));
+    if oc == nc {
+        return Ok(core::ptr::NonNull::slice_from_raw_parts(ptr, new.size()));
+    }
+    // move to the larger class: the whole old block is copied with a *concrete*
+    // size (bytes beyond old.size() are don't-care), so no symbolic-size memcpy arises
+    unsafe {
+        let raw = block(new.size(), new.align());
+        if oc == 32 {
+            core::ptr::copy_nonoverlapping(ptr.as_ptr(), raw, 32);
+        } else if oc == 64 {
+            core::ptr::copy_nonoverlapping(ptr.as_ptr(), raw, 64);
+        } else {
+            core::ptr::copy_nonoverlapping(ptr.as_ptr(), raw, 128);
+        }
+        Ok(core::ptr::NonNull::slice_from_raw_parts(core::ptr::NonNull::new_unchecked(raw), new.size()))
+    }
 }
 
 pub fn stub_shrink(
@@ -442,6 +457,22 @@ pub fn stub_shrink(
         return Ok(core::ptr::NonNull::slice_from_raw_parts(new.dangling_ptr(), 0));
     }
     Ok(core::ptr::NonNull::slice_from_raw_parts(ptr, new.size()))
+}
+
+/// K = 8 variant (thorough-tier harnesses on longer arrays)
+pub fn stub_with_capacity_k8<T>(capacity: usize) -> Vec<T> {
+    stub_with_capacity_in_k8::<T, std::alloc::Global>(capacity, std::alloc::Global)
+}
+pub fn stub_with_capacity_in_k8<T, A: Allocator>(capacity: usize, alloc: A) -> Vec<T, A> {
+    let sz = core::mem::size_of::<T>();
+    if sz == 0 {
+        return Vec::new_in(alloc);
+    }
+    let k = if sz <= 1 { K_BYTES } else if 8 * sz <= MAX_BLOCK { 8 } else { MAX_BLOCK / sz };
+    kani::assert(capacity <= k, "VERIF-LIMIT capacity above constant K");
+    let layout = Layout::array::<T>(k).unwrap();
+    let ptr = alloc.allocate(layout).unwrap().as_ptr() as *mut T;
+    unsafe { Vec::from_raw_parts_in(ptr, 0, k, alloc) }
 }
 
 pub fn stub_with_capacity<T>(capacity: usize) -> Vec<T> {
@@ -495,6 +526,25 @@ macro_rules! proof {
     };
 }
 pub(crate) use proof;
+
+/// Proof harness with capacity K = 8 (same stubs otherwise).
+macro_rules! proof_k8 {
+    ($name:ident, $unwind:expr, $body:block) => {
+        #[kani::proof]
+        #[kani::unwind($unwind)]
+        #[kani::stub(alloc::vec::Vec::with_capacity, crate::verif_common::stub_with_capacity_k8)]
+        #[kani::stub(alloc::vec::Vec::with_capacity_in, crate::verif_common::stub_with_capacity_in_k8)]
+        #[kani::stub(alloc::alloc::Global::alloc_impl_runtime, crate::verif_common::stub_alloc)]
+        #[kani::stub(alloc::alloc::Global::deallocate_impl_runtime, crate::verif_common::stub_dealloc)]
+        #[kani::stub(alloc::alloc::Global::grow_impl_runtime, crate::verif_common::stub_grow)]
+        #[kani::stub(alloc::alloc::Global::shrink_impl_runtime, crate::verif_common::stub_shrink)]
+        #[kani::stub(alloc::fmt::format, crate::verif_common::stub_format)]
+        #[kani::stub(::regex::Regex::new, crate::verif_common::stub_regex_new)]
+        #[kani::stub(core::str::count::do_count_chars, crate::verif_common::stub_do_count_chars)]
+        fn $name() $body
+    };
+}
+pub(crate) use proof_k8;
 
 /// Proof harness with the real core::fmt (S1, S2, S4 only).
 macro_rules! proof_fmt {
